@@ -50,6 +50,9 @@ def get_prop(pid):
     if pid == "C20":
         import p_comm
         return p_comm.CommProp()
+    if pid == "C06":
+        import p_wrap
+        return p_wrap.WrapProp()
     raise SystemExit(f"unknown property {pid}")
 
 
